@@ -25,13 +25,16 @@ StateCb ==
   /\ (userDone => Ev.state = "DISCONNECTED")
   /\ estab' = (IF Ev.state = "DISCONNECTED" THEN FALSE ELSE estab) /\ UNCHANGED <<userDone, echan>>
   /\ lossAt' = (IF Ev.state = "DISCONNECTED" THEN -1 ELSE lossAt)
+\* KNX IP Secure: the server ends the session under the tunnel (SESSION_STATUS unauthenticated 2, timeout 3, close 5)
+SessionEnded == Ev.kind = "SessionStatus" /\ Ev.st \in {2, 3, 5}
 Rx == /\ Ev.ev = "rx"
       /\ estab' = (IF Ev.kind = "ConnectResponse" /\ Ev.st = 0 THEN TRUE
                    ELSE IF Ev.kind = "DisconnectRequest" /\ Ev.chan = echan THEN FALSE     \* the server ended this tunnel
+                   ELSE IF SessionEnded THEN FALSE
                    ELSE estab)
       /\ echan' = (IF Ev.kind = "ConnectResponse" /\ Ev.st = 0 THEN Ev.chan ELSE echan)
       /\ lossAt' = (IF Ev.kind = "ConnectResponse" /\ Ev.st = 0 THEN -1
-                    ELSE IF Ev.kind = "DisconnectRequest" /\ Ev.chan = echan /\ estab THEN Ev.t ELSE lossAt)
+                    ELSE IF (Ev.kind = "DisconnectRequest" /\ Ev.chan = echan /\ estab) \/ (SessionEnded /\ estab) THEN Ev.t ELSE lossAt)
       /\ UNCHANGED <<stA, stB, userDone>>
 Lost == Ev.ev = "lost" /\ estab' = FALSE /\ lossAt' = (IF estab THEN Ev.t ELSE lossAt) /\ UNCHANGED <<stA, stB, userDone, echan>>   \* the connection under the tunnel is gone
 Tx == Ev.ev = "tx" /\ ~userDone /\ UNCHANGED <<stA, stB, estab, userDone, echan, lossAt>>      \* nothing is sent after the user disconnected
